@@ -431,8 +431,9 @@ def run_property(spec: Spec, tier: str, seed: int, jobs: int, only=None, verbose
             "wall_s": round(time.time() - t_start, 1),
             "violations": len(violations),
         }
-        os.makedirs(os.path.join(VERIF, "evidence"), exist_ok=True)
-        with open(os.path.join(VERIF, "evidence", f"{spec.pid}.json"), "w") as f:
+        evdir = os.environ.get("VF_EVIDENCE_DIR") or os.path.join(VERIF, "evidence")  # redirected when testing seeded changes
+        os.makedirs(evdir, exist_ok=True)
+        with open(os.path.join(evdir, f"{spec.pid}.json"), "w") as f:
             json.dump(ev, f, indent=1, default=repr)
         conf = sum(1 for r in all_results if r.verdict == "confirmed")
         say(f"SUMMARY property={spec.pid} tier={tier} cubes={len(all_results)} confirmed={conf} "
